@@ -89,7 +89,15 @@ macro_rules! exec_v4 {
         let mk = |v: &[$W]| $T::new(v[0], v[1], v[2], v[3]);
         let lanes = |v: $T| -> Vec<u128> { (0..4).map(|k| v.extract(k) as u128).collect() };
         match $op {
-            "ONew" => lanes(mk(&a)),
+            // the constructed value is read back through an explicit `Clone::clone` (a manual impl
+            // replacing the derive is observed); the other operations read the value itself
+            "ONew" => {
+                let v = mk(&a);
+                #[allow(clippy::clone_on_copy)]
+                let c = Clone::clone(&v);
+                let _ = v;
+                lanes(c)
+            }
             "ORotr" => {
                 // returns the rotated vector; `self` (taken by &mut) must stay as it was
                 let mut s = mk(&a);
@@ -132,7 +140,11 @@ macro_rules! exec_v4 {
 fn exec_v1(op: &str, a: &[u128], b: &[u128], i: u128) -> Vec<u128> {
     let s = u128x1::new(a[0]);
     match op {
-        "ONew" => vec![s.into_inner()],
+        "ONew" => {
+            #[allow(clippy::clone_on_copy)]
+            let c = Clone::clone(&s);
+            vec![c.into_inner()]
+        }
         "ORotr" => {
             let mut s = s;
             s.rotate_right(i);
@@ -175,7 +187,13 @@ fn exec_v2(op: &str, a: &[u128], b: &[u128], i: u128) -> Vec<u128> {
     let mk = |v: &[u128]| u128x2::new(v[0], v[1]);
     let lanes = |v: u128x2| vec![v.extract(0), v.extract(1)];
     match op {
-        "ONew" => lanes(mk(a)),
+        "ONew" => {
+            let v = mk(a);
+            #[allow(clippy::clone_on_copy)]
+            let c = Clone::clone(&v);
+            let _ = v;
+            lanes(c)
+        }
         "ORotr" => {
             let mut s = mk(a);
             s.rotate_right(i);
@@ -220,7 +238,13 @@ fn exec_x44(op: &str, a: &[u128], b: &[u128], i: u128) -> Vec<u128> {
         o
     };
     match op {
-        "ONew" => lanes(mk(a)),
+        "ONew" => {
+            let v = mk(a);
+            #[allow(clippy::clone_on_copy)]
+            let c = Clone::clone(&v);
+            let _ = v;
+            lanes(c)
+        }
         "OSplat" => lanes(u32x4x4::splat(p(a, 0))),
         "OIntoParts" => lanes(mk(a)),
         "OXor" => lanes(mk(a) ^ mk(b)),
@@ -518,6 +542,13 @@ impl Gen {
                         let mut idx: Vec<u128> = (0..n as u128).collect();
                         // out of range
                         idx.extend([n as u128, n as u128 + 1, 7, 0xffff_ffff]);
+                        if n == 4 {
+                            // `usize` indices (u32x4 / u64x4): values that a narrowing to 32 or 8 bits
+                            // would fold back into range; the u128 types take `u32` (nothing above)
+                            idx.extend([1u128 << 32, (1u128 << 32) + 1, 256, 257, (1u128 << 63) + 2]);
+                        } else {
+                            idx.extend([256, 257, 0x1_0000, 0x8000_0000]);
+                        }
                         for a in ps {
                             for &i in &idx {
                                 if op == "OReplace" {
@@ -713,7 +744,7 @@ fn main() {
         format!("{{{}}}", xs.join(","))
     };
     println!(
-        "{{\"evaluations\":{},\"distinct_nontrivial\":{},\"profile\":{},\"overflow_checks\":{},\"debug_assertions\":{},\"methods_exercised\":{},\"panics_observed\":{},\"by_type\":{},\"by_op\":{},\"direct_failures\":[],\"samples\":[{}]}}",
+        "{{\"evaluations\":{},\"distinct_nontrivial\":{},\"profile\":{},\"overflow_checks\":{},\"debug_assertions\":{},\"methods_exercised\":{},\"clone_exercised_in\":\"ONew of all five types\",\"lane_index_classes\":\"0..n-1, n, n+1, 7, 256, 257, 2^32-1, and 2^32, 2^32+1, 2^63+2 (usize indices) / 2^16, 2^31 (u32 indices)\",\"panics_observed\":{},\"by_type\":{},\"by_op\":{},\"direct_failures\":[],\"samples\":[{}]}}",
         total,
         distinct.len(),
         jstr(prof),
